@@ -134,6 +134,24 @@ def universe():
                                 "stickiness": 0.3, "radius_effective_mode": 1, "thickness_pd": 0.1,
                                 "thickness_pd_n": 7})
     add(P4, "direct", Q2, {"radius": 60.0, "thickness": 20.0, "volfraction": 0.05, "stickiness": 0.5})
+    # --- structure factors on their own (their definitions are shared with every product built from them)
+    SW = {"radius_effective": 50.0, "volfraction": 0.2, "welldepth": 1.5, "wellwidth": 1.2}
+    add("squarewell", "call_kernel", Q1, dict(SW))
+    add("squarewell", "call_kernel", Q1, dict(SW, radius_effective_pd=0.15, radius_effective_pd_n=9))
+    add("squarewell", "direct", Q2, dict(SW, radius_effective_pd=0.1, radius_effective_pd_n=5))
+    add("squarewell", "sasview", Q1, dict(SW, **{"radius_effective.width": 0.15, "radius_effective.npts": 9}))
+    add("squarewell", "sasview", Q1, dict(SW, **{"radius_effective.width": 0.0}))
+    HM = {"radius_effective": 25.0, "volfraction": 0.1, "charge": 12.0}
+    add("hayter_msa", "call_kernel", Q1, dict(HM, radius_effective_pd=0.2, radius_effective_pd_n=7))
+    add("hayter_msa", "sasview", Q1, dict(HM, **{"radius_effective.width": 0.2, "radius_effective.npts": 7}))
+    # products constructed from the SasView-style objects of the parts (as the SasView GUI does), listed under both parts
+    for m_ in ("sphere", "squarewell"):
+        add(m_, "multiply", Q1, {"radius": 50.0, "volfraction": 0.2, "welldepth": 1.5, "wellwidth": 1.2,
+                                 "radius_effective_mode": 1.0}, P="sphere", S="squarewell")
+    for m_ in ("cylinder", "hayter_msa"):
+        add(m_, "multiply", Q1, {"radius": 20.0, "length": 120.0, "volfraction": 0.1, "charge": 12.0,
+                                 "radius_effective_mode": 1.0, "radius.width": 0.1, "radius.npts": 5},
+            P="cylinder", S="hayter_msa")
     # --- mixture
     Mx = "sphere+cylinder"
     add(Mx, "call_kernel", Q1, {"A_radius": 40.0, "B_radius": 15.0, "B_length": 200.0, "A_scale": 0.5, "B_scale": 2.0})
@@ -154,7 +172,8 @@ def universe():
 MODEL_KIND = {"sphere": "c", "cylinder": "c", "adsorbed_layer": "python", "guinier_porod": "python",
               "core_shell_sphere@hardsphere": "product", "sphere@squarewell": "product",
               "cylinder@hayter_msa": "product", "vesicle@stickyhardsphere": "product",
-              "sphere+cylinder": "mixture", "core_multi_shell": "c-vector"}
+              "sphere+cylinder": "mixture", "core_multi_shell": "c-vector", "squarewell": "c-structure-factor",
+              "hayter_msa": "c-structure-factor"}
 # parameters of each model on which a generated step may switch a size distribution on, off or to another length
 DISPERSIBLE = {"sphere": ["radius"], "cylinder": ["radius", "length"],
                "core_shell_sphere@hardsphere": ["radius", "thickness"], "sphere@squarewell": ["radius"],
